@@ -19,6 +19,7 @@ import (
 	"runtime/debug"
 	"strings"
 	"sync"
+	"time"
 )
 
 // Point is one recorded choice point of an execution.
@@ -94,6 +95,11 @@ func Active() bool { return active != nil }
 type Options struct {
 	MaxSteps int  // 0 = 200000
 	Trace    bool // record an event log
+	// Watchdog (0 = none) ends an execution that does not finish in that much
+	// wall time: a managed thread is then blocked on something the scheduler
+	// does not own (a real lock, a peer that never answers). An infrastructure
+	// guard two to four orders of magnitude above a normal execution.
+	Watchdog time.Duration
 }
 
 // Run executes body as thread 0 under a fresh scheduler, replaying prefix and
@@ -112,7 +118,18 @@ func Run(prefix []int, opt Options, body func()) *Execution {
 	s.cur = t0
 	t0.started = true
 	t0.wake <- struct{}{}
-	<-s.finished
+	if opt.Watchdog > 0 {
+		select {
+		case <-s.finished:
+		case <-time.After(opt.Watchdog):
+			// the stuck thread owns the scheduler token; nothing can be unwound
+			s.aborted = true
+			s.failure = fmt.Sprintf("stuck: the execution did not finish within %v (a managed thread blocks outside the scheduler, e.g. on a lock that is never released or a handshake that is never answered)", opt.Watchdog)
+			s.failKind = "stuck"
+		}
+	} else {
+		<-s.finished
+	}
 	if !s.aborted {
 		s.wg.Wait()
 	}
